@@ -305,6 +305,14 @@ def gen_params(rng, spec, x0, y0, *, p_knob=0.5, scaling=True, globalized=True, 
                 "cons": rng.integers(-4, 5, size=spec["m"]).tolist(),
                 "obj": int(rng.integers(-3, 4)),
             }
+            u_ = rng.random()
+            if u_ < 0.08:
+                kw["scaling"]["var"] = [0] * spec["n"]  # rows-only scaling
+                kw["scaling"]["obj"] = 0
+            elif u_ < 0.16:
+                kw["scaling"]["var"] = [0] * spec["n"]  # objective-only scaling
+                kw["scaling"]["cons"] = [0] * spec["m"]
+                kw["scaling"]["obj"] = int(rng.choice([-3, -1, 1, 2]))
         else:
             kw["scaling_primal"] = "x0"
             kw["scaling_dual"] = "y0"
